@@ -78,6 +78,11 @@ CHECKS['C20'] = ('deviation-bounded space (<=3 of 11 slots, several modification
                  'and every single-field perturbation of the abstract peptide (value, multiplier, drop, duplicate, count '
                  'change, move, interval bound/flag, charge, adducts, label, rule, residue) for ==/!= in both directions',
                  'DESIGN.md section 4 / C20')
+CHECKS['C19'] = ('deviation-bounded space (<=3 of 10 slots) of abstract peptides on 5 (quick) / 7 (thorough) residue strings incl. '
+                 'repeated residues with different modifications; permutations / combinations / combinations_with_'
+                 'replacement / product for every size 1..n, None, n+1, through function and method, compared element by '
+                 'element with itertools over the (residue, own modifications) units wrapped in the unchanged prefix and '
+                 'suffix', 'DESIGN.md section 4 / C19')
 NOT_APPLICABLE = {}
 
 
